@@ -15,6 +15,7 @@ def job(harness, conc=False, reach=None, soft=None, **p):
 def c08_parse(n):
     r = ["malformed"] if n < 2 else ["malformed", "wellformed"] if n <= 9 else ["malformed", "overlong"]
     return job("H_C08_parse", reach=r, n=n)
+idioms = [job("H_selftest_idioms", reach=["checked"], part=p) for p in range(6)] + [job("H_selftest_idioms", conc=True, reach=["checked"], part=6)]
 def c08e(kind, dl, md): return job("H_C08_e2e", conc=True, reach=["checked"], kind=kind, dl=dl, md=md)
 c08_tail = [job("H_C08_client", reach=["future-deadline", "expired-deadline"]), job("H_C08_nodeadline", reach=["done"]), c08e(0, 1, 0), c08e(1, 1, 0), c08e(0, 0, 0), c08e(1, 0, 0)]
 P["C08"] = {
@@ -24,7 +25,7 @@ P["C08"] = {
    "time.Until/Time.Add/Sub modelled as 64-bit subtraction/addition (no monotonic-clock handling)",
    "strconv.ParseInt executed from its own SSA; fmt.Sprintf(\"%dm\") yields a digit string introduced by constraint (canonical form)"],
  "quick": [c08_parse(n) for n in range(0, 11)] + [job("H_C08_lookup", reach=["has-deadline", "no-deadline"], entries=2, vlen=2),
-            job("H_C08_lookup", reach=["has-deadline", "no-deadline"], entries=1, vlen=3), job("H_selftest_lib", reach=["checked"])] + c08_tail,
+            job("H_C08_lookup", reach=["has-deadline", "no-deadline"], entries=1, vlen=3), job("H_selftest_lib", reach=["checked"])] + idioms + c08_tail,
  "thorough": [c08_parse(n) for n in range(0, 14)] + [job("H_C08_lookup", reach=["has-deadline", "no-deadline"], entries=2, vlen=3),
             job("H_C08_lookup", reach=["has-deadline", "no-deadline"], entries=3, vlen=2)] + c08_tail + [c08e(0, 1, 1), c08e(1, 1, 1)],
 }
